@@ -33,10 +33,19 @@ type rec struct {
 	Return   int64  `json:"return_ns"`
 	Out      string `json:"out"` // fresh | replay | skew | clear
 	InWindow bool   `json:"in_window"`
+	SvcNT    int32  `json:"svc_nt,omitempty"`
+	Alt      bool   `json:"alt,omitempty"`
 }
 
 func pname(s string) types.PrincipalName {
 	return types.PrincipalName{NameType: 1, NameString: strings.Split(s, "/")}
+}
+
+func pnameT(s string, nt int32) types.PrincipalName {
+	if nt == 0 {
+		nt = 1
+	}
+	return types.PrincipalName{NameType: nt, NameString: strings.Split(s, "/")}
 }
 
 func run(tapeJSON json.RawMessage, res *core.Result) {
@@ -52,6 +61,10 @@ func run(tapeJSON json.RawMessage, res *core.Result) {
 			res.Verdict, res.Harness = "invalid", "task id"
 			return
 		}
+	}
+	if tp.AltMs < 0 || tp.AltMs > 2*3600*1000 {
+		res.Verdict, res.Harness = "invalid", "alt skew"
+		return
 	}
 	if tp.SkewS < 1 || tp.SkewS > 3600 || len(tp.Tasks) < 1 || len(tp.Tasks) > 4 || nops < 1 || nops > 32 {
 		res.Verdict, res.Harness = "invalid", "shape"
@@ -79,6 +92,12 @@ func run(tapeJSON json.RawMessage, res *core.Result) {
 		}
 	}
 	rc := service.GetReplayCache(skew) // created by task 0; its clean-up goroutine becomes a task on first lock
+	altSkew := time.Duration(tp.AltMs) * time.Millisecond
+	rcAlt := rc
+	if tp.AltMs != 0 {
+		// what a second settings object of the process gets from the library
+		rcAlt = service.GetReplayCache(altSkew)
+	}
 	recs := make([][]rec, len(tp.Tasks))
 	var ts []*simrt.Task
 	for ti, tt := range tp.Tasks {
@@ -98,7 +117,13 @@ func run(tapeJSON json.RawMessage, res *core.Result) {
 					if dlt < 0 {
 						dlt = -dlt
 					}
-					r.InWindow = dlt <= skew
+					useSkew, useRC := skew, rc
+					if op.Alt && tp.AltMs != 0 {
+						useSkew, useRC = altSkew, rcAlt
+						r.Alt = true
+					}
+					r.SvcNT = op.SvcNT
+					r.InWindow = dlt <= useSkew
 					simrt.Logf("invoke present %s in_window=%v", r.ID, r.InWindow)
 					if w != nil {
 						r.Out = w.present(op, ct)
@@ -108,7 +133,7 @@ func run(tapeJSON json.RawMessage, res *core.Result) {
 						sec := ct.Truncate(time.Second)
 						a := types.Authenticator{AVNO: 5, CRealm: "SIM.TEST", CName: pname(op.Client),
 							CTime: sec, Cusec: int(ct.Sub(sec) / time.Microsecond)}
-						if rc.IsReplay(pname("HTTP/"+op.Svc), a) {
+						if useRC.IsReplay(pnameT("HTTP/"+op.Svc, op.SvcNT), a) {
 							r.Out = "replay"
 						} else {
 							r.Out = "fresh"
@@ -118,10 +143,16 @@ func run(tapeJSON json.RawMessage, res *core.Result) {
 					simrt.Logf("return present %s -> %s", r.ID, r.Out)
 					recs[ti] = append(recs[ti], r)
 				case "clear":
+					// an application that cleans the shared cache itself has to keep entries for the
+					// longest skew it verifies with
 					d := skew + time.Duration(op.ClearS)*time.Second
+					if altSkew > skew {
+						d = altSkew + time.Duration(op.ClearS)*time.Second
+					}
 					simrt.Logf("invoke clear %v", d)
+					inv := simrt.NowNs()
 					rc.ClearOldEntries(d)
-					recs[ti] = append(recs[ti], rec{Task: tt.ID, Idx: oi, Out: "clear", Invoke: simrt.NowNs(), Return: simrt.NowNs()})
+					recs[ti] = append(recs[ti], rec{Task: tt.ID, Idx: oi, Out: "clear", Invoke: inv, Return: simrt.NowNs()})
 				case "sleep":
 				default:
 				}
@@ -199,7 +230,25 @@ func judge(tp *Tape, base time.Time, skew time.Duration, all []rec, res *core.Re
 			firstByKey[r.Key] = r
 		}
 	}
+	for _, r := range all {
+		if r.Out != "clear" {
+			continue
+		}
+		for _, o := range all {
+			if (o.Out == "fresh" || o.Out == "replay") && o.Invoke < r.Return && r.Invoke < o.Return {
+				res.Probes["presentation-overlaps-cleanup"]++
+			}
+		}
+	}
 	for id, rs := range byID {
+		for i := 1; i < len(rs); i++ {
+			if rs[i].SvcNT != rs[0].SvcNT {
+				res.Probes["replay-under-other-name-type"]++
+			}
+			if rs[i].Alt != rs[0].Alt {
+				res.Probes["replay-through-other-settings"]++
+			}
+		}
 		var acc []rec
 		for _, r := range rs {
 			if r.Out == "fresh" {
